@@ -206,6 +206,14 @@ def run(chk):
                 "integral's own rule; default degree vs a much higher explicit degree. distinct = (cell, degree set) / form.")
     chk.trusted += ["Basix quadrature data (points/weights) enter as data", "harness/monomial.py closed forms; harness/oracle.py"]
     chk.lean("FfcxProofs.C11", THEOREMS)
+    # selection pipeline: Lean transcription of _analyze_form's metadata logic and of _group_integrands_by_quadrature_rule,
+    # theorems over all groups; model vs the real functions on seeded forms (every rule array re-derived from Basix)
+    from .. import quadsel_checks
+    chk.lean(quadsel_checks.QUADSEL_MODULE, quadsel_checks.QUADSEL_THEOREMS, extra_files=quadsel_checks.QUADSEL_FILES)
+    with lean.Driver("driver_quadsel") as d:
+        quadsel_checks.check_tables(chk, d)
+        quadsel_checks.check_selection(chk, d, chk.seed, 240 if chk.tier == "quick" else 1500)
+    chk.trusted += ["Basix arrays enter as data; UFL compute_form_data is the selection model's input"]
     degrees = list(range(0, 31)) if chk.tier == "thorough" else [0, 1, 2, 3, 4, 5, 6, 8, 11, 15]
     exactness(chk, degrees)
     vals = [0, 1, 2, 3, 5] if chk.tier == "quick" else [0, 1, 2, 3, 4, 5, 7, 10]
